@@ -34,26 +34,30 @@ Theorem lock_order_sound_programs :
 Proof. exact lock_order_sound_prog. Qed.
 Print Assumptions lock_order_sound_programs.
 
-(* FULL statement for today's skeleton: no schedule reaches a deadlock configuration.  The lock-order check does NOT
-   hold of the full skeleton: finding C18/1 - BlockchainRpcTxWatcher.AddWaitForCsvTx calls the CSV callback
-   synchronously when the transaction is already past the CSV, under the swap mutex held by the event handler that
-   registers it; the callback takes the same mutex (self edge swap.SwapStateMachine.mutex -> itself).  Confirmed on the
-   real code by the deadlock harness; restated in Findings/F_C18_1.v. *)
+(* FULL statement for today's skeleton: no schedule of any number of threads started at any functions reaches a
+   deadlock configuration.  (Before the repair of finding C18/1 - BlockchainRpcTxWatcher.AddWaitForCsvTx called the CSV
+   callback synchronously under the swap mutex held by the event handler that registers the watch, self edge
+   swap.SwapStateMachine.mutex -> itself - the lock-order check failed on the full skeleton; Findings/F_C18_1.v keeps
+   the pre-repair call structure as a refutation witness.) *)
 Definition C18_full : Prop :=
   forall (ts : list fname) (c : config),
     reach c18_prog_full (init c18_prog_full ts) c -> ~ deadlocked c.
 
+Theorem c18_full : C18_full.
+Proof. exact c18_full_no_deadlock. Qed.
+Print Assumptions c18_full.
+
 (* c18_current: the skeleton generated from the code as it is NOW decodes completely, the extractor met no construct
    it cannot flatten soundly (unbalanced branch, return with a lock held, write or call under RLock, goto, ...), and
-   the lock-order check holds with the computed may-acquire sets and ranking on the skeleton MINUS exactly the call of
-   the known finding (c18_known: the CallSlot csvPassedCallback inside BlockchainRpcTxWatcher.AddWaitForCsvTx).  Any
-   other cycle or self edge - in particular a callback under a watcher lock, findings C18/2-3, repaired - is outside
-   the exclusion and makes this theorem fail. *)
+   the lock-order check holds with the computed may-acquire sets and ranking on the WHOLE skeleton (the exclusion list
+   c18_known is empty since finding C18/1 was repaired).  Any cycle or self edge - in particular a callback under a
+   watcher lock (findings C18/2-3, repaired) or a synchronous callback under the swap mutex (finding C18/1, repaired) -
+   makes this theorem fail. *)
 Theorem c18_current : c18_skeleton_ok = true.
 Proof. exact c18_skeleton_ok_now. Qed.
 Print Assumptions c18_current.
 
-(* proved: no schedule of any number of threads over today's skeleton without that one call reaches a deadlock *)
+(* the same through c18_prog (= the full skeleton while c18_known is empty) *)
 Theorem c18_no_deadlock_except_known :
   forall (ts : list fname) (c : config),
     reach c18_prog (init c18_prog ts) c -> ~ deadlocked c.
